@@ -24,7 +24,9 @@ for ident, r in sorted(res.items()):
     for fn in ("patch.diff", "demo.py", "notes.md"):
         shutil.copy(os.path.join(root, ident, fn), os.path.join(d, fn))
     notes = open(os.path.join(root, ident, "notes.md")).read()
-    det = {p: {"exit": v["rc"], "lines": v.get("violations", [])[:2]} for p, v in sorted(r.get("checks", {}).items()) if v["rc"] == 1}
+    det = {p: {"exit": v["rc"], "lines": v.get("violations", [])} for p, v in sorted(r.get("checks", {}).items())
+           if v["rc"] == 1 and v.get("violations")}
+    with_input = sorted(p for p, v in det.items() if any("no-failing-input-found" not in l for l in v["lines"]))
     meta = {
         "id": sid, "breaks_property": prop,
         "origin": "written by an independent sub-agent that was given only the property text and a scratch worktree (nothing from /verif)",
@@ -33,9 +35,9 @@ for ident, r in sorted(res.items()):
             "how": "tools/seedtest.py: fresh scratch worktree of /repo HEAD, git apply patch.diff; full test suite; demo.py on patched and on clean tree",
             "test_suite_with_patch": r.get("tests"), "demo_exit_patched": r.get("demo_patched_rc"), "demo_exit_clean": r.get("demo_clean_rc")},
         "checks_run": "every registered quick check, from a scratch copy of /verif with VERIF_REPO=<patched worktree>",
-        "detected_by": sorted(det), "detected_with_failing_input_by": r.get("detected_with_input", []),
+        "detected_by": sorted(det), "detected_with_failing_input_by": with_input,
         "target_property_detected": prop in det,
-        "target_property_detected_with_input": prop in r.get("detected_with_input", []),
+        "target_property_detected_with_input": prop in with_input,
         "violation_lines": det.get(prop, {}).get("lines", []),
     }
     json.dump(meta, open(os.path.join(d, "meta.json"), "w"), indent=1)
